@@ -309,6 +309,14 @@ class SimMP:
             arr = (tp * len(size_or_initializer))(*size_or_initializer)
         if lock:
             raise NotImplementedError('simulated Array supports lock=False only')
+        fault = getattr(self.sim, 'alloc_fault', None)
+        if fault:
+            # the shared segment cannot be created: /dev/shm (or $TMPDIR) is full, or the machine is out of memory
+            self.sim.ctx.fault('shared_array_' + fault)
+            self.sim.log('array_fault', fault)
+            if fault == 'enospc':
+                raise OSError(28, 'No space left on device')
+            raise OSError(12, 'Cannot allocate memory')
         self.sim.ctx.count('shared_arrays')
         return arr
 
@@ -364,10 +372,11 @@ class FaultyMD:
 
 
 @contextlib.contextmanager
-def installed(ctx, read_faults=None):
+def installed(ctx, read_faults=None, alloc_fault=None):
     """Replace the multiprocessing seam of enspara.util.load for the duration of a run."""
     import enspara.util.load as L
     sim = Sim(ctx, [L])
+    sim.alloc_fault = alloc_fault
     old_mp, old_md = L.mp, L.md
     L.mp = SimMP(sim)
     if read_faults:
